@@ -81,7 +81,7 @@ func runC04(c *Collector, r *Rng, thorough bool) {
 		func(n int64) any { return uint64(n) },
 		func(n int64) any { return uint8(n) },
 	}
-	structures := []string{"sign1", "untagged", "signature", "countersignature"}
+	structures := []string{"sign1", "untagged", "signature", "countersignature", "hashenvelope"}
 	count := 0
 	for _, st := range structures {
 		for _, sa := range signerAlgs {
@@ -93,6 +93,9 @@ func runC04(c *Collector, r *Rng, thorough bool) {
 							continue
 						}
 						count++
+						if st == "hashenvelope" && ex.v != nil {
+							continue // SignHashEnvelope takes no external data
+						}
 						for _, rawMode := range []string{"none", "empty-nonnil", "consistent", "inconsistent"} {
 							if rawMode != "none" && (li != 0 || (!thorough && (ai%3 != 0))) {
 								continue
@@ -281,6 +284,8 @@ func c04Sign(c *Collector, class, st string, h cose.Headers, ext []byte, sa cose
 		parent := &cose.Sign1Message{Headers: cose.Headers{Protected: cose.ProtectedHeader{}}, Payload: []byte("p"), Signature: []byte{1}}
 		op, obs, err, p = execCsign(s, sg, parentOf(parent, true), ext)
 		h = s.Headers
+	case "hashenvelope":
+		op, obs, _, err, p = execSignHE(sg, h, cose.HashEnvelopePayload{HashAlgorithm: cose.AlgorithmSHA256, HashValue: make([]byte, 32)})
 	}
 	if p {
 		c.Fail("C04/panic", "Sign panicked", map[string]any{"op": op})
@@ -294,7 +299,10 @@ func c04Sign(c *Collector, class, st string, h cose.Headers, ext []byte, sa cose
 		suffix = "/label-spelled-non-int64"
 	}
 	fail := func(key, desc string) {
-		if rawGiven && len(h.RawProtected) > 0 {
+		if st == "hashenvelope" {
+			// SignHashEnvelope builds the protected bucket itself: caller-supplied raw bytes play no part
+			key += "/hashenvelope"
+		} else if rawGiven && len(h.RawProtected) > 0 {
 			// caller-supplied raw protected bytes are signed as they are; their alg is never consulted
 			key = "C04/raw-protected-alg-not-consulted"
 		}
@@ -357,6 +365,8 @@ func c04Verify(c *Collector, class, st string, h cose.Headers, ext []byte, va co
 	var p bool
 	gate, _ := expectGate(&h, va)
 	switch st {
+	case "hashenvelope":
+		return // VerifyHashEnvelope takes wire bytes: covered by the decoded-message part and by C12
 	case "sign1", "untagged":
 		m := &cose.Sign1Message{Headers: h, Payload: []byte("payload"), Signature: []byte{1, 2}}
 		op, obs, err, p = execVerify1(m, ext, vf)
